@@ -286,3 +286,63 @@ def replay_append_lock(inputs, obl):
     if problems:
         return dict(confirmed=True, detail='; '.join(problems))
     return dict(confirmed=False, detail='both directed schedules of the append lock behave (no lost append, the retry returns)')
+
+
+def replay_late_load_under_pressure(inputs, obl):
+    """schedule: get(f) [load L queued] | update(f, NEW) [write W queued] | W completes and is cached | L completes late - with a cache
+    so tight (max_memory=100, 60-byte contents) that accounting the late load has to evict, and f itself is the oldest entry.
+    The get must return OLD or NEW, nothing may raise, and the accounting must equal the cached bytes."""
+    import time
+    c, d = _cache(max_memory=100)
+    try:
+        OLD, NEW = b'o' * 60, b'n' * 60
+        with open(os.path.join(d, 'f'), 'wb') as fh:
+            fh.write(OLD)
+        out = {}
+
+        def wait_tasks(n):
+            t0 = time.time()
+            while len(c.executor.tasks) < n and time.time() - t0 < 5:
+                time.sleep(0.001)
+            return len(c.executor.tasks) >= n
+        t1 = threading.Thread(target=lambda: out.setdefault('get', _call(c.get_file, 'f')))
+        t1.start()
+        if not wait_tasks(1):
+            return dict(confirmed=False, detail='load was not submitted')
+        t2 = threading.Thread(target=lambda: out.setdefault('up', _call(c.update_file, 'f', NEW)))
+        t2.start()
+        if not wait_tasks(2):
+            # the update waits for the load: run the load, then the write (no overtaking possible on this code)
+            while c.executor.tasks or t1.is_alive() or t2.is_alive():
+                if c.executor.tasks:
+                    c.executor.run_next()
+                time.sleep(0.002)
+                if not wait_tasks(1) and not (t1.is_alive() or t2.is_alive()):
+                    break
+        else:
+            w = c.executor.tasks.pop(1)            # the write first ...
+            try:
+                w[0].set_result(w[1](*w[2]))
+            except BaseException as e:
+                w[0].set_exception(e)
+            while c.executor.tasks:                # ... then the late load
+                c.executor.run_next()
+        for t in (t1, t2):
+            t.join(5)
+        if t1.is_alive() or t2.is_alive():
+            return dict(confirmed=True, detail='get(f) overtaken by update(f): a call did not return')
+        g = out.get('get')
+        cur, tot = _acct(c)
+        problems = []
+        if g not in (OLD, NEW):
+            problems.append(f"the get returned {g!r:.80}, neither the old nor the new contents")
+        if isinstance(out.get('up'), BaseException):
+            problems.append(f"the update raised {out['up']!r}")
+        if cur != tot or cur < 0 or cur > 100:
+            problems.append(f"current_memory_usage={cur}, cached entries sum to {tot} (limit 100)")
+        if problems:
+            return dict(confirmed=True, detail="max_memory=100, 60-byte contents: get(f) [load queued]; update(f,NEW) [write queued]; the write completes; the load "
+                                               "completes late: " + '; '.join(problems))
+        return dict(confirmed=False, detail=f"late load under memory pressure: get returned {'OLD' if g == OLD else 'NEW'}, accounting {cur}=={tot}")
+    finally:
+        shutil.rmtree(d, ignore_errors=True)
